@@ -194,6 +194,9 @@ func (s *Sim) Deliver(b *MBlock) {
 		// verdict is judged from the resulting state (never in the active chain).
 		if b.Class == ClsConnect {
 			r.Probe("connect-invalid-delivered")
+			if isRule(err) && b.Parent.ChainValid() {
+				r.Probe("connect-invalid-rejected:" + b.Mut)
+			}
 		}
 	}
 	if !tooNew || preHave {
